@@ -55,6 +55,11 @@ def walk(t):
         return walk(t[1])
     if k == 'iter':
         return walk(t[1])
+    if k == 'skip':
+        base, rng = walk(t[1])
+        if base is None or rng:
+            return None, False
+        return base + (['from1'] if t[2] == ('int', 1) else ['range?']), True
     if k in ('elemref', 'elem'):
         base, rng = walk(t[1])
         if base is None:
